@@ -206,3 +206,34 @@ def reliable_links(c):
     exp = c.ints('exp', 2, 0, 255, kind='tuple')
     c.call((cf, 'send_packet'), pk, exp)
     c.ensure('timer-only-on-the-radio-link', "raised is None and len(sent('Timer')) == (1 if is_radio else 0) and len(sent('drv_send')) == 1")
+
+
+@contract('C10', 'radio.needs_resending-follows-each-negotiation', ['cflib.crtp.radiodriver:_RadioDriverThread.run', 'cflib.crtp.radiodriver:RadioDriver.__init__'],
+          clause='whether requests are retried follows the link of the CURRENT session: after a session with safelink, a new radio thread on the '
+                 'same driver whose peer does not confirm safelink (e.g. the bootloader) makes the link need retries again',
+          bounded='two successive radio threads on one RadioDriver; every order of (confirmed, not confirmed)')
+def needs_resending_follows(c):
+    RD = 'cflib.crtp.radiodriver'
+    ACK = 'cflib.drivers.crazyradio:_radio_ack'
+    drv = c.new(RD + ':RadioDriver')
+    c.let('drv', drv)
+    first = c.choice('first_session_safelink', [True, False])
+    second = c.choice('second_session_safelink', [True, False])
+    for idx, confirmed in enumerate((first, second)):
+        n = [0]
+        stop = c.raiser('StopLoop')
+
+        def send(_i, args, _k, confirmed=confirmed, n=n):
+            n[0] += 1
+            if confirmed and n[0] == 1:
+                return c.obj(ACK, ack=True, data=c.snapshot('good', 'bytes([0xff, 0x05, 0x01])'), powerDet=False, retry=0)
+            if not confirmed and n[0] <= 10:
+                return c.obj(ACK, ack=True, data=(), powerDet=False, retry=0)
+            return stop()
+        radio = c.ext('radio%d' % idx, returns={'send_packet': send})
+        th = c.new(RD + ':_RadioDriverThread', radio, c.queue('inq%d' % idx), c.queue('outq%d' % idx, maxsize=1), None, c.ext('link_error'), drv, None)
+        c.set(th, '_radio_link_statistics', c.ext('stats'))
+        c.call((th, 'run'))
+        c.let('confirmed', confirmed)
+        c.ensure('session-%d-started' % idx, "raised == 'StopLoop'")
+        c.ensure('session-%d-retries-iff-no-safelink' % idx, 'drv.needs_resending is (not confirmed)')
